@@ -9,7 +9,7 @@
 From Coq Require Import List ZArith PArith Bool.
 From KaiV Require Import Model.Res Model.Status Model.AMap Model.Node Model.NodeSpec Proofs.Node Proofs.Admissible
      Run.NodeObs Run.Cycle Run.C01 Proofs.CycleSafe Model.Snapshot Proofs.Snapshot
-     Model.PodRequest Proofs.PodRequest Proofs.PodRequestBind.
+     Model.PodRequest Proofs.PodRequest Proofs.PodRequestBind Proofs.PodRequestSidecar.
 Import ListNotations.
 Open Scope Z_scope.
 
@@ -312,13 +312,43 @@ Print Assumptions C01_overhead_before_max_readme_witness.
 
 (** The upstream aggregation with restartable init containers ([k8s_request]: AggregateContainerRequests, the
     reference side of the FRequest cases) is [pod_request] when the pod has no sidecar. With sidecars the scheduler's
-    reading differs (known finding C01-sidecar-init-containers-under-read, flag 7 of Run/C01.v). *)
+    reading differed until the repair 21eb608 (it treated a sidecar as an ordinary init container); since then the
+    correspondence of Run/C01.v ties the scheduler's reading to [k8s_request] for every pod. *)
 Theorem C01_kubernetes_rule_without_sidecars :
   forall p : podspec,
     Forall res_nonneg (ps_conts p) ->
     k8s_request (ps_conts p) (map (pair false) (ps_inits p)) (ps_overhead p) = pod_request p.
 Proof. exact k8s_request_no_sidecar. Qed.
 Print Assumptions C01_kubernetes_rule_without_sidecars.
+
+(** With restartable init containers: while an init container starts it runs next to the sidecars started before
+    it (a sidecar: next to the earlier ones, and it stays); after the init phase the regular containers run next
+    to all sidecars; the overhead is held throughout ([sidecar_stages]). For ALL pods - any containers, any init
+    containers, restartable or not, in any order, any overhead - and every resource, [k8s_request] covers every
+    stage ... *)
+Theorem C01_request_with_sidecars_covers_every_stage :
+  forall (conts : list res) (inits : list (bool * res)) (oh : res) (k : rkind) (d : res),
+    In d (sidecar_stages conts inits oh) -> proj k d <= proj k (k8s_request conts inits oh).
+Proof. exact k8s_request_covers_every_stage. Qed.
+Print Assumptions C01_request_with_sidecars_covers_every_stage.
+
+(** ... and is the least booking that does: some stage holds exactly that much. *)
+Theorem C01_request_with_sidecars_is_attained :
+  forall (conts : list res) (inits : list (bool * res)) (oh : res) (k : rkind),
+    0 <= proj k (run_stage conts inits) ->
+    exists d, In d (sidecar_stages conts inits oh) /\ proj k d = proj k (k8s_request conts inits oh).
+Proof. exact k8s_request_is_attained. Qed.
+Print Assumptions C01_request_with_sidecars_is_attained.
+
+(** Non-vacuity, and the finding repaired by 21eb608: a 1000m / 1Gi container with a 1000m / 1Gi sidecar holds
+    2000m / 2Gi while it runs; the rule says 2000m, the reading that treats the sidecar as an ordinary init
+    container ([pod_request] on the spec with the flags dropped) says 1000m. *)
+Theorem C01_sidecar_as_ordinary_init_refuted :
+  cpu (k8s_request sidecar_pod_conts sidecar_pod_inits rzero) = 2000
+  /\ cpu (pod_request (mkPS sidecar_pod_conts (map snd sidecar_pod_inits) rzero)) = 1000
+  /\ In (mkRes 2000 2147483648 0 0 0 0) (sidecar_stages sidecar_pod_conts sidecar_pod_inits rzero).
+Proof. exact sidecar_pod_witness. Qed.
+Print Assumptions C01_sidecar_as_ordinary_init_refuted.
 
 (** Link with the bind guard (C01_bind_on_snapshot_within_allocatable): when the books are kept in [booked] units -
     the charge of every occupying pod and of the pod being bound is its [pod_request] plus the pod slot - a Bind
